@@ -41,7 +41,8 @@ func T(tag string, args ...Node) Node {
 func None() Node       { return L(Sym("none")) }
 func Some(x Node) Node { return L(Sym("some"), x) }
 
-var limit = new(big.Int).Lsh(big.NewInt(1), 61)
+// values below 10^18 are written in decimal (the OCaml reader accepts at most 18 decimal digits), larger ones as #x<hex>
+var limit = new(big.Int).Exp(big.NewInt(10), big.NewInt(18), nil)
 
 func (n Node) write(b *strings.Builder) {
 	switch n.Kind {
